@@ -15,7 +15,7 @@ DOMAINS = {
     "lexer": {"letter": "L", "header_tokens": 3},
     "match": {"letter": "M", "header_tokens": 6},
     "p01": {"letter": "P", "header_tokens": 4}, "p02": {"letter": "P", "header_tokens": 4}, "p05": {"letter": "P", "header_tokens": 4},
-    "p04": {"letter": "P", "header_tokens": 4}, "p07": {"letter": "P", "header_tokens": 4}, "p17": {"letter": "P", "header_tokens": 4},
+    "p04": {"letter": "P", "header_tokens": 4}, "roundtrip": {"letter": "Y", "header_tokens": 9}, "p17": {"letter": "P", "header_tokens": 4},
     "errstr": {"letter": "E", "header_tokens": 5}, "buffmt": {"letter": "F", "header_tokens": 9}, "expr": {"letter": "X", "header_tokens": 4},
     "p06": {"letter": "P", "header_tokens": 4}, "p08": {"letter": "P8", "header_tokens": 4}, "p09": {"letter": "P9", "header_tokens": 4},
 }
@@ -134,7 +134,7 @@ PROPS["C16"] = {"module": "ScpiVerif.Props.C16", "domains": [{"name": "buffmt", 
     "trusted_base": [KERNEL, CORR, PLATFORM, "printf build: snprintf(%g / %.15lg) of glibc is correctly rounded (trusted); own formatter: digit generation uses C double arithmetic (trusted IEEE-754)"],
     "assumptions": ["Model/Dtostre.lean transcribes the string assembly of SCPI_dtostre; digit generation (scpi_ecvt) is corresponded, not proved"],
     "rule": "cases as C15; judged against the exact rational value of the bit pattern: within half a unit (printf build) / one unit (own formatter) of the last requested significant digit"}
-PROPS["C07"] = {"module": "ScpiVerif.Props.C07", "domains": [{"name": "p07", "cfgs": ["A"]}, {"name": "intfmt", "cfgs": ["A"]}], "clauses": ["C07."], "level": "proof",
+PROPS["C07"] = {"module": "ScpiVerif.Props.C07", "domains": [{"name": "roundtrip", "cfgs": ["A"]}], "clauses": ["C07."], "level": "proof",
     "trusted_base": [KERNEL, CORR, PLATFORM, "libc number conversion as specified in Model/Prim.lean; float closeness rests on printf/strtod of the C library (trusted, compared on every run)"],
     "assumptions": ["writer side from C14 / C17 / C18, lexer side from C13, reader side from the context model"],
     "rule": "cases = a result script and the response it produced re-submitted as the parameter of the matching reader: all 2^8 and 2^16 values, boundary and random 32/64-bit values in bases 2, 8, 10, 16, strings over an alphabet with both quotes, blocks of 0..1100 random bytes, random and boundary floats / doubles; non-trivial = every case"}
